@@ -75,6 +75,29 @@ Proof.
   - exact C.
 Qed.
 
+
+(** ... for ANY node list (a subset, a single reactive atom, staged use): the hydrogens of the chosen atoms made explicit and
+    everything folded back hands RDKit the same molecule *)
+Theorem h_roundtrip_molecule_nodes (g : gr) (nodes : option (list N)) : gwfb g = true -> no_H g = true -> no_tgh g = true ->
+  (forall u v x, adj g u v = Some x -> u <> v /\ scalar_ord x) ->
+  exists atoms b1 b2, graph_to_mol (h_to_implicit (h_to_explicit g nodes false)) = Some (atoms, b1) /\ graph_to_mol g = Some (atoms, b2) /\
+                      forall i j, bond_find i j b1 = bond_find i j b2.
+Proof.
+  intros Hw Hh Ht Hm. pose proof (gwfb_gwf g Hw) as W. destruct (h_roundtrip_nodes g nodes Hw Hh) as (A & B & C). cbv zeta in A, B, C.
+  set (g' := h_to_implicit (h_to_explicit g nodes false)) in *.
+  assert (gwf g') as W' by (apply h_to_implicit_gwf, h_to_explicit_gwf, W).
+  apply (graph_to_mol_ext g' g W' W).
+  - intros u v x Ax. rewrite C in Ax. apply (Hm u v x Ax).
+  - exact A.
+  - intros n. destruct (label g n) as [a|] eqn:La.
+    + rewrite (B n a La). f_equal. destruct (mem n (exp_nodes g nodes)); [|reflexivity].
+      unfold h_restore. apply assoc_in in La. unfold no_tgh in Ht. rewrite forallb_forall in Ht. specialize (Ht _ La). simpl in Ht.
+      destruct a as [el ar hc ch am [t|]]; [discriminate|]. simpl. destruct (0 <? _); reflexivity.
+    + apply has_node_false in La. apply has_node_false. apply not_true_is_false. intros E.
+      apply has_node_in in E. rewrite A in E. apply has_node_in in E. congruence.
+  - exact C.
+Qed.
+
 (** non-vacuity: methylamine *)
 Example h_roundtrip_molecule_ex :
   gwfb ex_methylamine = true /\ no_H ex_methylamine = true /\ no_tgh ex_methylamine = true /\
